@@ -248,6 +248,14 @@ def multi_pool(r):
             '%d.%d.%d.%d' % tuple(r.randrange(256) for _ in range(4)), 'user%d@example.com' % r.randrange(100), 'https://www.example.org/a%d' % r.randrange(100),
             '#tag%d' % r.randrange(100), '@name%d' % r.randrange(100), '(%d) %d-%04d' % (r.randrange(200, 999), r.randrange(200, 999), r.randrange(10000)),
             'yes', 'no', 'from %s to %s' % (d.isoformat(), (d + dt.timedelta(days=r.randrange(1, 60))).isoformat())]
+    # date-time expressions carrying one or two modifiers (before/after/since/until x around/about): the merged
+    # extractor and parser widen and restore the span for these
+    base = [pool[0], pool[1], pool[2], 'tomorrow', 'next %s' % r.choice(dtlib.WD_EN), '%s %d' % (r.choice(dtlib.MON_EN), r.randrange(1, 28)), '%d' % r.randrange(1990, 2030),
+            '%d %s' % (r.randrange(2, 12), r.choice(['o\'clock', 'am', 'pm']))]
+    mods = ['before', 'after', 'since', 'until', 'by', 'around', 'about', 'starting', 'no later than', 'prior to', 'since around', 'before around', 'after about',
+            'starting around', 'until about', 'from around']
+    for _ in range(6):
+        pool.append('%s %s' % (r.choice(mods), r.choice(base)))
     return pool
 
 
